@@ -139,17 +139,19 @@ theorem C08_mode_of_flags (lo li lc dry : Bool) :
 
 /-! ## T3 — `--list-inputs` names what the run reads -/
 
-/-- T3: the printed list contains every template of the active type loader, every support resource the run
-renders or copies, and the DSDL source of every type the run generates. -/
+/-- T3: the printed list contains every file the active type loader can hand to a template (any suffix, also below
+linked directories), every support resource the run renders or copies, the DSDL source of every type the run generates,
+and every definition below the lookup directories. -/
 theorem C08_list_inputs_covers (a : Args) (es : List Entry) (tree : List (Entry × OutPath))
     (hacc : accepted a = true) (htree : buildTree a (treeEntries a es) = .ok tree) :
-    (a.genSupport ≠ .only → ∀ f ∈ typeTemplates a, f.path ∈ (run .listInputs a es).inputs) ∧
+    (a.genSupport ≠ .only → ∀ f ∈ typeInputs a, f.path ∈ (run .listInputs a es).inputs) ∧
     (shouldGenerateSupport a = true →
       ∀ n ∈ supportResources a a.omitSer, supportTemplateRead a n ∈ (run .listInputs a es).inputs) ∧
-    (a.genSupport ≠ .only → ∀ x ∈ selected a tree, x.1.src ∈ (run .listInputs a es).inputs) := by
+    (a.genSupport ≠ .only → ∀ x ∈ selected a tree, x.1.src ∈ (run .listInputs a es).inputs) ∧
+    (a.genSupport ≠ .only → ∀ d ∈ a.lookupFiles, d ∈ (run .listInputs a es).inputs) := by
   unfold run runWith
-  simp only [hacc, Bool.not_true, Bool.false_eq_true, if_false, reduceCtorEq, ↓reduceIte, htree, listInputsOnly, listInputsWith]
-  refine ⟨?_, ?_, ?_⟩
+  simp only [hacc, Bool.not_true, Bool.false_eq_true, if_false, reduceCtorEq, ↓reduceIte, htree, listInputsOnly, listInputsGen]
+  refine ⟨?_, ?_, ?_, ?_⟩
   · intro h f hf
     have : (a.genSupport != .only) = true := by simpa using h
     simp only [this, if_true, List.mem_append, List.mem_map]
@@ -160,63 +162,56 @@ theorem C08_list_inputs_covers (a : Args) (es : List Entry) (tree : List (Entry 
   · intro h x hx
     have : (a.genSupport != .only) = true := by simpa using h
     simp only [this, if_true, List.mem_append, List.mem_map]
-    exact .inr ⟨x, hx, rfl⟩
+    exact .inr (.inl ⟨x, hx, rfl⟩)
+  · intro h d hd
+    have : (a.genSupport != .only) = true := by simpa using h
+    simp only [this, if_true, List.mem_append]
+    exact .inr (.inr hd)
 
-/-- T3, stated over paths: every file the active loader's enumeration reaches is printed *as its own path* — for a
-`--templates` directory every file below it (any depth; a file that is a symbolic link is printed as its resolved
-target) whose name ends in `.j2`, for the built-in package every loadable name with suffix `.j2`.  The hypothesis
-`viaLinkedDir = false` excludes the third known finding: a file below a symbolically linked *sub-directory* is opened
-by Jinja but not enumerated (witness below).  Two files with the same base name in different folders are two list items
-(no de-duplication by name). -/
+/-- T3, stated over paths: every file the active loader can open is printed *as its own path* — for a `--templates`
+directory every file below it (any depth, any suffix, also below a symbolically linked sub-directory; a file that is a
+symbolic link is printed as its resolved target), for the built-in package every loadable name.  Two files with the same
+base name in different folders are two list items (no de-duplication by name). -/
 theorem C08_list_inputs_every_template_path (a : Args) (es : List Entry) (tree : List (Entry × OutPath))
     (hacc : accepted a = true) (htree : buildTree a (treeEntries a es) = .ok tree) (hon : a.genSupport ≠ .only) :
-    (∀ fs, a.templates = some fs → ∀ f ∈ fs, (".j2".toList).isSuffixOf f.name.toList = true →
-        f.viaLinkedDir = false → f.path ∈ (run .listInputs a es).inputs) ∧
-    (a.templates = none → ∀ n ∈ a.lang.loadable, isJ2 n = true →
+    (∀ fs, a.templates = some fs → ∀ f ∈ fs, f.path ∈ (run .listInputs a es).inputs) ∧
+    (a.templates = none → ∀ n ∈ a.lang.loadable,
         (builtinTemplateFile a "templates" n).path ∈ (run .listInputs a es).inputs) := by
-  obtain ⟨h1, _, _⟩ := C08_list_inputs_covers a es tree hacc htree
+  obtain ⟨h1, _, _, _⟩ := C08_list_inputs_covers a es tree hacc htree
   refine ⟨?_, ?_⟩
-  · intro fs ht f hf hj hl
+  · intro fs ht f hf
     apply h1 hon
-    simp only [typeTemplates, ht, List.mem_filter]
-    refine ⟨hf, ?_⟩
-    rw [hl]; simpa using hj
-  · intro ht n hn hj
+    simp only [typeInputs, typeLoaderFiles, ht]; exact hf
+  · intro ht n hn
     apply h1 hon
-    simp only [typeTemplates, ht, typeLoaderFiles, List.mem_filter, List.mem_map]
-    exact ⟨⟨n, hn, rfl⟩, hj⟩
+    simp only [typeInputs, typeLoaderFiles, ht, List.mem_map]
+    exact ⟨n, hn, rfl⟩
 
-/-- The printed template items are exactly the enumerated files, with multiplicity: as many items as files (a
-listing that keeps one file per base name prints fewer). -/
+/-- The printed items are exactly the enumerated files, with multiplicity: as many items as files (a listing that keeps
+one file per base name prints fewer). -/
 theorem C08_list_inputs_template_count (a : Args) (es : List Entry) (tree : List (Entry × OutPath))
     (hacc : accepted a = true) (htree : buildTree a (treeEntries a es) = .ok tree)
     (hon : a.genSupport ≠ .only) (hns : shouldGenerateSupport a = false) :
-    (run .listInputs a es).inputs = (typeTemplates a).map (·.path) ++ (selected a tree).map (·.1.src) := by
+    (run .listInputs a es).inputs =
+      (typeInputs a).map (·.path) ++ ((selected a tree).map (·.1.src) ++ a.lookupFiles) := by
   have : (a.genSupport != .only) = true := by simpa using hon
   unfold run runWith
-  simp [hacc, htree, listInputsOnly, listInputsWith, this, hns]
+  simp [hacc, htree, listInputsOnly, listInputsGen, this, hns]
 
-/-
-T3, FULL STATEMENT (does not hold for the code as it is — two known findings, see the witnesses below):
-
-  theorem C08_list_inputs_covers_reads (a es tree) (hacc) (htree) :
-      ∀ r ∈ reads a tree, r ∈ (run .listInputs a es).inputs
-
-`reads` = templates of the active loader ∪ every loader name they include ∪ for every generated type its DSDL file
-and every DSDL file the front end read to compile it ∪ the support templates the support loader really opens.
-What is proved is the statement under two explicit, decidable hypotheses, each excluding one defect class:
--/
-
-/-- T3 (partial): the full statement for runs in which (1) no generated type depends on a definition outside the
-generated set (fails for a dependency found through `--lookup-dir`), (2) the built-in templates include only
-`.j2` files (fails for the HTML assets; what the templates of a custom `--templates` directory include is not
-known to the model at all). -/
-theorem C08_list_inputs_covers_reads_partial (a : Args) (es : List Entry) (tree : List (Entry × OutPath))
+/-- T3, FULL STATEMENT: `--list-inputs` names every file whose content a real run turns into output — `reads` = the
+templates of the active loader ∪ every loader name they include ∪ for every generated type its DSDL file and every DSDL
+file the front end read to compile it ∪ the support templates the support loader really opens.  The two hypotheses are no
+longer defect classes but facts about the surroundings: (1) a definition the front end read lies in the root namespace or
+below a lookup directory (it has nowhere else to look); (2) what a built-in template includes is a file of its own
+package (`C08_shipped_includes_are_loadable`: checked on the generated table for all shipped languages; the includes of a
+custom `--templates` directory are files of that directory, all of which are printed — `C08_list_inputs_every_template_path`).
+Before the round-2 fixes both failed (`listInputsOnlyBeforeInputsFix`, witnesses below). -/
+theorem C08_list_inputs_covers_reads (a : Args) (es : List Entry) (tree : List (Entry × OutPath))
     (hacc : accepted a = true) (htree : buildTree a (treeEntries a es) = .ok tree)
-    (hdeps : ∀ x ∈ selected a tree, ∀ d ∈ x.1.deps, d ∈ (selected a tree).map (·.1.src))
-    (hinc : a.templates = none → ∀ n ∈ a.lang.included, n ∈ a.lang.loadable ∧ isJ2 n = true) :
+    (hdeps : ∀ x ∈ selected a tree, ∀ d ∈ x.1.deps, d ∈ (selected a tree).map (·.1.src) ∨ d ∈ a.lookupFiles)
+    (hinc : a.templates = none → ∀ n ∈ a.lang.included, n ∈ a.lang.loadable) :
     ∀ r ∈ reads a tree, r ∈ (run .listInputs a es).inputs := by
-  obtain ⟨h1, h2, h3⟩ := C08_list_inputs_covers a es tree hacc htree
+  obtain ⟨h1, h2, h3, h4⟩ := C08_list_inputs_covers a es tree hacc htree
   intro r hr
   unfold reads at hr
   rcases List.mem_append.1 hr with hr | hr
@@ -224,28 +219,39 @@ theorem C08_list_inputs_covers_reads_partial (a : Args) (es : List Entry) (tree 
     · have hne : a.genSupport ≠ .only := by simpa using hon
       simp only [hon, if_true, List.mem_append, List.mem_map, List.mem_flatMap, List.mem_cons] at hr
       rcases hr with (⟨f, hf, rfl⟩ | ⟨f, hf, rfl⟩) | ⟨x, hx, hrx⟩
-      · exact h1 hne f hf
-      · -- an included file: it is a `.j2` file of the built-in package, hence one of `typeTemplates`
+      · apply h1 hne
+        simp only [typeTemplates] at hf
+        cases ht : a.templates with
+        | some fs => simp only [ht, List.mem_filter] at hf; simp only [typeInputs, typeLoaderFiles, ht]; exact hf.1
+        | none => simp only [ht, List.mem_filter] at hf; exact hf.1
+      · -- an included file: a file of the built-in package
         unfold includedFiles at hf
         cases ht : a.templates with
         | some fs => simp [ht] at hf
         | none =>
           simp only [ht, List.mem_map] at hf
           obtain ⟨n, hn, rfl⟩ := hf
-          obtain ⟨hl, hj⟩ := hinc ht n hn
           apply h1 hne
-          simp only [typeTemplates, ht, typeLoaderFiles, List.mem_filter, List.mem_map]
-          exact ⟨⟨n, hl, rfl⟩, hj⟩
+          simp only [typeInputs, typeLoaderFiles, ht, List.mem_map]
+          exact ⟨n, hinc ht n hn, rfl⟩
       · rcases hrx with rfl | hd
         · exact h3 hne x hx
-        · obtain ⟨y, hy, hyr⟩ := List.mem_map.1 (hdeps x hx r hd)
-          rw [← hyr]; exact h3 hne y hy
+        · rcases hdeps x hx r hd with hs | hl
+          · obtain ⟨y, hy, hyr⟩ := List.mem_map.1 hs
+            rw [← hyr]; exact h3 hne y hy
+          · exact h4 hne r hl
     · simp [hon] at hr
   · by_cases hsg : shouldGenerateSupport a = true
     · simp only [hsg, if_true, List.mem_map] at hr
       obtain ⟨n, hn, rfl⟩ := hr
       exact h2 hsg n hn
     · simp [hsg] at hr
+
+/-- Generated-table obligation: hypothesis (2) holds for every shipped language — whatever a built-in template includes
+(also the HTML style sheets and scripts) is a loadable file of its package, hence printed. -/
+theorem C08_shipped_includes_are_loadable :
+    ∀ l ∈ table, ∀ n ∈ l.included, n ∈ l.loadable := by
+  decide
 
 /-- Generated-table obligation: hypothesis (2) holds for the shipped C, C++ and Python template sets (checked
 against `Gen/SupportFiles.lean`, i.e. against the templates of the tree under check). -/
@@ -439,7 +445,8 @@ example : (run .generate wArgs wEntries).err = none ∧
     generated wArgs wEntries = [["out", "nunavut", "support", "serialization.h"], ["out", "app", "Use_1_0.h"]] ∧
     (run .listOutputs wArgs wEntries).outputs =
       [["out", "app", "Use_1_0.h"], ["out", "nunavut", "support", "serialization.h"]] ∧
-    (run .listInputs wArgs wEntries).inputs.length = 10 := by decide
+    "/ns/app/Use.1.0.dsdl" ∈ (run .listInputs wArgs wEntries).inputs ∧
+    "/pkg/nunavut/lang/c/support/serialization.j2" ∈ (run .listInputs wArgs wEntries).inputs := by decide
 
 /-- Non-vacuity: the "generation fails" branch exists (C has no namespace template), and the parser's
 rejection. -/
@@ -457,7 +464,6 @@ example :
     (runLcBeforeFix .listOutputs true wArgs wEntries).outputs = [["out", "nunavut", "support", "serialization.h"]] ∧
     ["out", "app", "Use_1_0.h"] ∈ generated wArgs wEntries ∧
     ["out", "app", "Use_1_0.h"] ∈ (run .listOutputs wArgs wEntries).outputs ∧
-    (runLcBeforeFix .listInputs true wArgs wEntries).inputs.length = 9 ∧
     "/ns/app/Use.1.0.dsdl" ∉ (runLcBeforeFix .listInputs true wArgs wEntries).inputs := by decide
 
 /-- DEFECT F1 (unchanged code): `--generate-support only --omit-serialization-support --list-outputs` prints
@@ -471,16 +477,22 @@ example :
 /-- … and the repaired listing prints nothing for the same arguments. -/
 example : (run .listOutputs { wArgs with genSupport := .only, omitSer := true } wEntries).outputs = [] := by decide
 
-/-- KNOWN FINDING (lookup dependency): `Use.1.0` embeds `lib.Dep.1.0` found through `--lookup-dir`; the file is
-read and compiled into the output but not listed.  Negation of the full T3 statement. -/
-example : ∃ r ∈ reads wArgs [(wEntries[1], ["out", "app", "Use_1_0.h"])],
-    r ∉ (run .listInputs wArgs wEntries).inputs :=
-  ⟨"/look/lib/Dep.1.0.dsdl", by decide, by decide⟩
+/-- DEFECT repaired in round 2 (lookup dependency): `Use.1.0` embeds `lib.Dep.1.0` found through `--lookup-dir`; the file is
+read and compiled into the output.  Before `fix_list_inputs_lookup_dsdl` it was not listed (negation of the full T3
+statement for `runBeforeInputsFix`); now every definition below the lookup directories is. -/
+example :
+    let a := { wArgs with lookupFiles := ["/look/lib/Dep.1.0.dsdl", "/look/lib/Unused.1.0.dsdl"] }
+    (∃ r ∈ reads a [(wEntries[1], ["out", "app", "Use_1_0.h"])], r ∉ (runBeforeInputsFix .listInputs a wEntries).inputs) ∧
+    (∀ r ∈ reads a [(wEntries[1], ["out", "app", "Use_1_0.h"])], r ∈ (run .listInputs a wEntries).inputs) :=
+  ⟨⟨"/look/lib/Dep.1.0.dsdl", by decide, by decide⟩, by decide⟩
 
-/-- KNOWN FINDING (HTML assets): the HTML templates include files that are not `.j2`; they are not listed. -/
-example : ∃ r ∈ reads { wArgs with lang := lang_html } [],
-    r ∉ (run .listInputs { wArgs with lang := lang_html } []).inputs :=
-  ⟨"/pkg/nunavut/lang/html/templates/assets/bootstrap.min.css", by decide, by decide⟩
+/-- DEFECT repaired in round 2 (HTML assets): the HTML templates include files that are not `.j2`; before
+`fix_list_inputs_all_template_dir_files` they were not listed, now every file of the template package is. -/
+example :
+    (∃ r ∈ reads { wArgs with lang := lang_html } [],
+      r ∉ (runBeforeInputsFix .listInputs { wArgs with lang := lang_html } []).inputs) ∧
+    (∀ r ∈ reads { wArgs with lang := lang_html } [], r ∈ (run .listInputs { wArgs with lang := lang_html } []).inputs) :=
+  ⟨⟨"/pkg/nunavut/lang/html/templates/assets/bootstrap.min.css", by decide, by decide⟩, by decide⟩
 
 /-- DEFECT (unchanged code, shadowed support template): a `serialization.j2` in `--support-templates` is what the
 support generator renders, the packaged one is what `--list-inputs` printed.  `runBeforeFix` violates T3 … -/
@@ -502,7 +514,8 @@ def wTreeDir : List TemplateFile :=
 
 example :
     (run .listInputs { wArgs with genSupport := .never, templates := some wTreeDir } wEntries).inputs =
-      ["/t/Any.j2", "/t/header.j2", "/t/parts/header.j2", "/t/parts/deep/header.j2", "/ns/app/Use.1.0.dsdl"] := by decide
+      ["/t/Any.j2", "/t/header.j2", "/t/parts/header.j2", "/t/parts/deep/header.j2", "/t/data/values.txt",
+       "/ns/app/Use.1.0.dsdl"] := by decide
 
 /-- `..` after a (possibly symbolic) directory is kept in computed, printed and written paths alike; only empty and
 `.` segments disappear (seeded change C08-4 printed the lexically normalised `/t/gen/...`). -/
@@ -514,14 +527,17 @@ example :
     generated { wArgs with outdir := ["", "t", "lnk", "..", "gen"], genSupport := .never } wEntries =
       [["t", "lnk", "..", "gen", "app", "Use_1_0.h"]] := by decide
 
-/-- A template that is itself a symbolic link is listed (as its target); one below a linked sub-directory
-(KNOWN FINDING template-in-symlinked-dir) is rendered but not listed. -/
+/-- A template that is itself a symbolic link is listed (as its target).  One below a linked sub-directory is rendered
+by Jinja; before `fix_list_inputs_all_template_dir_files` it was not listed, now it is. -/
 def wLinkedDir : List TemplateFile :=
   wTreeDir ++ [⟨"license.j2", "/shared/license.j2", false⟩, ⟨"linked/part.j2", "/elsewhere/part.j2", true⟩]
 
 example :
+    (runBeforeInputsFix .listInputs { wArgs with genSupport := .never, templates := some wLinkedDir } wEntries).inputs =
+      ["/t/Any.j2", "/t/header.j2", "/t/parts/header.j2", "/t/parts/deep/header.j2", "/shared/license.j2", "/ns/app/Use.1.0.dsdl"] ∧
     (run .listInputs { wArgs with genSupport := .never, templates := some wLinkedDir } wEntries).inputs =
-      ["/t/Any.j2", "/t/header.j2", "/t/parts/header.j2", "/t/parts/deep/header.j2", "/shared/license.j2", "/ns/app/Use.1.0.dsdl"] := by
+      ["/t/Any.j2", "/t/header.j2", "/t/parts/header.j2", "/t/parts/deep/header.j2", "/t/data/values.txt",
+       "/shared/license.j2", "/elsewhere/part.j2", "/ns/app/Use.1.0.dsdl"] := by
   decide
 
 /-- `cliMain` on a whole command line: the run of the decision model it denotes. -/
